@@ -15,17 +15,18 @@ NAMES = ["CLEAN", "PAT", "RAW", "ARITH"]
 
 class PV:
     """level + provenance (where ARITH was created) + optional pointwise form + refinements"""
-    __slots__ = ("lvl", "prov", "pw", "half", "ref", "const", "vs")
+    __slots__ = ("lvl", "prov", "pw", "half", "ref", "const", "vs", "tag")
 
     def __init__(self, lvl=CLEAN, prov=frozenset(), pw=None, half=None, ref=frozenset(), const=None, vs=False):
         self.lvl, self.prov, self.pw, self.half, self.ref, self.const = lvl, prov, pw, half, ref, const
         self.vs = vs          # the *shape / length* of the value depends on weight values (np.where, masks, filters)
+        self.tag = None       # parameters bound to one and the same variable of the caller carry the same tag (they hold the same value)
 
     def __repr__(self):
         return NAMES[self.lvl] + ("~pw" if self.pw is not None else "")
 
     def key(self):
-        return (self.lvl, self.prov, self.pw, self.half, self.ref, repr(self.const), self.vs)
+        return (self.lvl, self.prov, self.pw, self.half, self.ref, repr(self.const), self.vs, self.tag)
 
 
 NOCONST = object()
@@ -221,14 +222,16 @@ class Pattern(Interp):
             r, c = idx.items
             rn, cn = n.slice.elts
             if b.pw is not None and b.pw[2] == "a" and self._is_full_slice(c) and not self._is_full_slice(r):
-                res.half = (b.pw[1], "r", norm(rn))
+                res.half = (b.pw[1], "r", norm(rn), getattr(r, "tag", None))
             elif b.pw is not None and b.pw[2] == "a" and self._is_full_slice(r) and not self._is_full_slice(c):
-                res.half = (b.pw[1], "c", norm(cn))
+                res.half = (b.pw[1], "c", norm(cn), getattr(c, "tag", None))
             elif b.half is not None:
-                mid, side, txt = b.half
-                if side == "r" and self._is_full_slice(r) and norm(cn) == txt:
+                mid, side, txt, tag = b.half
+                # the same index on the other axis: the same expression, or two parameters that the caller bound to one variable
+                same = lambda node, val: norm(node) == txt or (tag is not None and getattr(val, "tag", None) == tag)
+                if side == "r" and self._is_full_slice(r) and same(cn, c):
                     res.pw = ("m", mid, "a")
-                elif side == "c" and self._is_full_slice(c) and norm(rn) == txt:
+                elif side == "c" and self._is_full_slice(c) and same(rn, r):
                     res.pw = ("m", mid, "a")
         return res
 
@@ -388,6 +391,34 @@ class Pattern(Interp):
 
     def h_param(self, func, pname, v, ctx):
         return v
+
+    def call_repo_raw(self, func, selfobj, args, kwargs, n, env, ctx):
+        # helper(A, S, S): the two parameters hold one value. They get one tag, so that  M[rows, :][:, cols]  inside the helper is still read as
+        # the principal sub-matrix it is (only for plain names evaluated to one and the same abstract value object; anything else stays untagged)
+        if isinstance(n, ast.Call) and len(n.args) == len(args) and not any(isinstance(a, ast.Starred) for a in n.args) and \
+                {k.arg for k in n.keywords} == set(kwargs):
+            slots = {}
+            for k_, a in enumerate(n.args):
+                if isinstance(a, ast.Name):
+                    slots.setdefault(a.id, []).append(("pos", k_))
+            for k in n.keywords:
+                if isinstance(k.value, ast.Name):
+                    slots.setdefault(k.value.id, []).append(("kw", k.arg))
+            for nm, where in slots.items():
+                if len(where) < 2:
+                    continue
+                vals = [args[k_] if kind == "pos" else kwargs[k_] for kind, k_ in where]
+                if all(isinstance(v, PV) for v in vals) and all(v is vals[0] for v in vals):
+                    v0 = vals[0]
+                    t = PV(v0.lvl, v0.prov, pw=v0.pw, half=v0.half, ref=v0.ref, const=v0.const, vs=v0.vs)
+                    t.tag = ("same", ctx.qname, getattr(n, "lineno", 0), getattr(n, "col_offset", 0), nm)
+                    args, kwargs = list(args), dict(kwargs)
+                    for kind, k_ in where:
+                        if kind == "pos":
+                            args[k_] = t
+                        else:
+                            kwargs[k_] = t
+        return super().call_repo_raw(func, selfobj, args, kwargs, n, env, ctx)
 
     def h_missing_arg(self, func, pname, n, ctx):
         return PV()
